@@ -928,30 +928,60 @@ func rC16CycleCheck(w *World, r *Report) {
 		ru.Undecided("scheduler", w.Pos(run.Pos()), "scheduler loop not found")
 		return
 	}
-	// scheduling only on err == nil
-	good := false
-	for _, f := range factsAt(sched.Block()) {
-		if f.Op == token.EQL && f.Y != nil && isNilConst(f.Y) {
-			if ex, ok := f.X.(*ssa.Extract); ok && ex.Index == 1 && ex.Tuple == ssa.Value(dfs) {
-				good = true
+	// decided by the value-sensitive reach (the error may travel through a merge before it is tested, and the
+	// check may sit behind an empty-graph test): (1) with the error of DepthFirstSort not nil, neither the scheduler
+	// nor a go statement is reachable from the call, and every return reachable hands that error back; (2) without
+	// passing the call, neither is reachable from the entry
+	var errV ssa.Value
+	if dfs.Referrers() != nil {
+		for _, r := range *dfs.Referrers() {
+			if ex, ok := r.(*ssa.Extract); ok && ex.Index == 1 {
+				errV = ex
 			}
 		}
 	}
-	// error returned
-	ret := false
-	eachInstr(run, func(in ssa.Instruction) {
-		if r2, ok := in.(*ssa.Return); ok {
-			if ex, ok := r2.Results[0].(*ssa.Extract); ok && ex.Index == 1 && ex.Tuple == ssa.Value(dfs) {
-				ret = true
+	ig := buildIG(run)
+	isLaunch := func(in ssa.Instruction) bool {
+		_, isGo := in.(*ssa.Go)
+		return isGo || in == sched
+	}
+	good, ret := errV != nil, false
+	if errV != nil {
+		seen, ok := ig.reachVSInit(ig.after(dfs), nil, nil, triEnv{errV: vsVal{t: 2}})
+		if !ok {
+			seen = ig.reachFrom(ig.after(dfs), nil)
+		}
+		for i, sn := range seen {
+			if !sn {
+				continue
+			}
+			if isLaunch(ig.instrs[i]) {
+				good = false
+			}
+			if r2, isRet := ig.instrs[i].(*ssa.Return); isRet && len(r2.Results) > 0 {
+				carries := false
+				for _, leaf := range phiLeaves(r2.Results[0], map[ssa.Value]bool{}) {
+					if leaf == errV {
+						carries = true
+					}
+				}
+				if carries {
+					ret = true
+				} else {
+					good = false
+				}
 			}
 		}
-	})
-	// all go statements dominated too
-	eachInstr(run, func(in ssa.Instruction) {
-		if _, ok := in.(*ssa.Go); ok && !dfs.Block().Dominates(in.Block()) {
-			good = false
+		before, ok := ig.reachVSInit([]int{0}, func(in ssa.Instruction) bool { return in == ssa.Instruction(dfs) }, nil, nil)
+		if !ok {
+			before = ig.reachFrom([]int{0}, func(in ssa.Instruction) bool { return in == ssa.Instruction(dfs) })
 		}
-	})
+		for i, sn := range before {
+			if sn && isLaunch(ig.instrs[i]) {
+				good = false
+			}
+		}
+	}
 	ru.Check(good && ret, "cycle-check", w.IPos(dfs), "scheduler loop entered only when DepthFirstSort returned no error; the error is returned", "the scheduler can start although the cycle check failed (or its error is dropped)")
 }
 
